@@ -614,7 +614,7 @@ pub mod python {
                     );
                 }
             }
-            self.0.predict(batch);
+            Python::with_gil(|py| py.allow_threads(|| self.0.predict(batch)));
 
             PyPredictionBatchResult(res)
         }
